@@ -188,7 +188,7 @@ def plan(prop, tier):
     if prop == 'C15':
         return {'stages': match_stages('pathver', 0, 6 if q else 7) + match_stages('headerver', 0, 1), 'rule': RULE_MATCH, 'assumptions': ASSUME_COMMON}
     if prop == 'C13':
-        return {'stages': group_stages(2 if q else 3, 'C13', 0.5 if q else 0.03) + [gogen('bytes', 60 if q else 1500, fam='group', trace='Trace_Group')],
+        return {'stages': group_stages(2 if q else 3, 'C13', 0.5 if q else 0.08) + [gogen('bytes', 60 if q else 1500, fam='group', trace='Trace_Group')],
                 'rule': RULE_GROUP, 'assumptions': ASSUME_COMMON}
     if prop == 'C16':
         st = group_stages(2, 'C16', 0.08 if q else 0.5)
